@@ -297,6 +297,18 @@ def execute_case(spec: dict, *, chooser: Optional[Chooser] = None, gated: bool =
                 with open(os.path.join(obs_dir, f'gate.{n["name"]}'), 'w'):
                     pass
         if obs.outcome == 'raise' and runner is not None and hasattr(runner, 'real'):
+            # workers that were executing when run_tasks raised are allowed to finish: wait for them (never kill them in the
+            # middle of a save - that would be a harness-made half-written entry); stop() is only the last resort for stragglers
+            try:
+                ex_ = getattr(runner.real, 'executor', None)
+                for _, p_ in list(getattr(ex_, '_running_id_to_future_and_process', {}).values()):
+                    try:
+                        if p_.pid is not None:
+                            p_.join(5 if obs.timeout else 30)
+                    except Exception:
+                        pass
+            except Exception:
+                pass
             try:
                 runner.real.stop()
             except Exception:
